@@ -979,7 +979,9 @@ class Engine:
     def call_closure(self, cl: Closure, args, kwargs, st: State, line=0):
         key = cl.src.key
         con = self.contracts.get(key)
-        if con is not None and con.modular and key != self.cur_func_key:
+        if con is not None and con.modular and key != self.cur_func_key and not (
+            getattr(con, "inline_within", None) and str(self.cur_func_key).startswith(con.inline_within)
+        ):
             self.contract_used.add(key)
             yield from con.apply(self, st, args, kwargs, line)
             return
